@@ -104,7 +104,15 @@ def run(ck):
            "[false, {condition: A, A: {f: x}}, [], []]", "1: {condition: A, A: {f: x}}\n2: []\n3: []",
            "detection:\n  condition: A\n  A: {f: x}\n  1: {f: x}\ntrue_positives: []\ntrue_negatives: []",
            "detection:\n  condition: 1\n  A: {f: x}\ntrue_positives: []\ntrue_negatives: []",
-           "detection: {condition: A, A: {f: x}, A: {g: y}}\ntrue_positives: []\ntrue_negatives: []"]
+           "detection: {condition: A, A: {f: x}, A: {g: y}}\ntrue_positives: []\ntrue_negatives: []",
+           "detection: {condition: A, A: {f: x}}\ntrue_positives: ~\ntrue_negatives: null",
+           "detection: {condition: A, A: {f: x}}\ntrue_positives:\ntrue_negatives:",
+           "detection: {condition: A, A: {f: x}}\ntrue_positives: !t ~\ntrue_negatives: []",
+           "detection: {condition: A, A: {f: x}}\ntrue_positives: [~]\ntrue_negatives: [null, {f: x}]",
+           "detection: ~\ntrue_positives: []\ntrue_negatives: []",
+           "detection: {condition: ~, A: {f: x}}\ntrue_positives: []\ntrue_negatives: []",
+           "detection: {condition: A, A: ~}\ntrue_positives: []\ntrue_negatives: []",
+           "detection: {condition: A, A: {f: x}}\ntrue_positives: []\ntrue_negatives: []\noptimised: ~"]
     for t in raw:
         rule_cases.append({"k": "rule", "id": ck.new_id(), "rule": t, "docs": [], "sw": [0], "validate": True, "_raw": True})
 
